@@ -1,4 +1,5 @@
 import OasisProofs.Helpers.PcsLinks
+import OasisProofs.Helpers.PcsTcb
 import OasisProofs.Helpers.PcsExpect
 import Generated.PcsFacts
 /-
@@ -483,9 +484,12 @@ theorem foreign_pce_rejected {L : Lib} {env : Env} {policy : Option Policy} {ts 
   simp only [PckExt.ok.injEq] at hext'
   obtain ⟨_, rfl, rfl⟩ := hext'
   have hmem := List.mem_of_find?_eq_some hl.1
-  have hm := List.find?_some hl.1
+  have hm0 : lvl.matches pck.compSvn (tdxSvnOf q) pck.pcesvn = true := by
+    have := List.find?_some hl.1
+    simpa using this
+  have hm := (matches_iff _ _ _ _).1 hm0
   have := hlow lvl hmem
-  simp only [TcbLevel.matches, Bool.and_eq_true, Bool.not_eq_true', decide_eq_false_iff_not] at hm
+  have := hm.2.1
   omega
 
 /-- **foreign_collateral_rejected** (TEE type): TCB info or QE identity issued for the other TEE
@@ -717,6 +721,15 @@ theorem field_roles_consistent :
 independent `if`s that `applyDefaults` models. -/
 theorem generated_apply_defaults_match :
     Generated.PcsFacts.applyDefaultConstraints = Expect.expectedApplyDefaults := by
+  decide
+
+set_option maxRecDepth 100000 in
+/-- The statement skeletons of `TCBLevel.matches` (loops, offset rule, comparisons, early exits),
+`getTCBLevel`, `validateTCBLevel`, `validateFMSPC`, the two `validate`s, `QEIdentity.verify`,
+`QuoteBundle.Verify` and the node-registration functions in the current source are the ones the
+model transcribes. -/
+theorem generated_tcb_skeletons_match :
+    Generated.PcsFacts.tcbSkeletons = Expect.expectedTcbSkeletons := by
   decide
 
 /-! ### non-vacuity: a concrete accepted quote in a concrete ideal world -/
